@@ -28,6 +28,9 @@ site: http://bugseng.com/products/ppl/ . */
 #include "Polyhedron_defs.hh"
 #include <cstddef>
 #include <limits>
+#ifdef BUGSENG_PPL_VERIF
+#include "verif_hooks.hh"
+#endif
 
 namespace Parma_Polyhedra_Library {
 
@@ -82,6 +85,9 @@ namespace Parma_Polyhedra_Library {
 template <typename Linear_System1>
 dimension_type
 Polyhedron::simplify(Linear_System1& sys, Bit_Matrix& sat) {
+#ifdef BUGSENG_PPL_VERIF
+  PPL_VERIF_REACH(POLY_SIMPLIFY);
+#endif
   dimension_type num_rows = sys.num_rows();
   const dimension_type num_cols_sat = sat.num_columns();
 
